@@ -286,4 +286,19 @@ theorem Event.ofWire_toWire (e : Event) (h : ∀ p ∈ e.attr, reserved p.1 = fa
       cases e.escalation <;> decide
     rw [esc]
 
+/-- the public state of an event after it was sent: the attributes under reserved keys exist only on the wire,
+    a send takes them out of the object's attribute map again -/
+def Event.afterSend (e : Event) : Event := { e with attr := e.attr.filter (fun p => !reserved p.1) }
+
+theorem Event.afterSend_id (e : Event) (h : ∀ p ∈ e.attr, reserved p.1 = false) : e.afterSend = e := by
+  have : e.attr.filter (fun p => !reserved p.1) = e.attr := by
+    rw [List.filter_eq_self]
+    intro p hp
+    simp [h p hp]
+  unfold Event.afterSend
+  rw [this]
+
+theorem Event.afterSend_idem (e : Event) : e.afterSend.afterSend = e.afterSend := by
+  simp [Event.afterSend, List.filter_filter]
+
 end Wire
